@@ -83,8 +83,12 @@ type OEvent struct {
 		Cfg     *OCfg  `json:"cfg"`
 		Msgs    []OMsg `json:"msgs"`
 		Restart bool   `json:"restart"`
-		F       string `json:"f"`   // Upd: feeder whose EndBlock is set
-		End     uint64 `json:"end"` // Upd: new EndBlock
+		F       string `json:"f"`     // Upd: feeder whose EndBlock is set
+		End     uint64 `json:"end"`   // Upd: new EndBlock
+		Tok     string `json:"tok"`   // Add: token
+		Start   uint64 `json:"start"` // Add: StartBaseBlock
+		Iv      uint64 `json:"iv"`    // Add: Interval
+		Sr      uint64 `json:"sr"`    // Add: StartRoundID
 	} `json:"a"`
 }
 
@@ -142,9 +146,9 @@ func oracleGenCfg(c OCfg, dbdir string) GenCfg {
 	gc.GenesisTime = oracleGenesisTime
 	gc.OracleMut = func(p *oracletypes.Params, g *oracletypes.GenesisState) {
 		// token 1 = the staking asset's token created by NewWorld; further tokens are plain
-		nTok := 0
+		nTok := 2
 		for _, f := range c.Fd {
-			if int(idNum(f.Tok)) > nTok {
+			if f.Tok != "" && int(idNum(f.Tok)) > nTok {
 				nTok = int(idNum(f.Tok))
 			}
 		}
@@ -156,6 +160,9 @@ func oracleGenCfg(c OCfg, dbdir string) GenCfg {
 		p.TokenFeeders = p.TokenFeeders[:1]
 		for _, fk := range sortedKeys(c.Fd) {
 			f := c.Fd[fk]
+			if f.Tok == "" {
+				continue
+			}
 			p.TokenFeeders = append(p.TokenFeeders, &oracletypes.TokenFeeder{TokenID: idNum(f.Tok), RuleID: 1, StartRoundID: f.Sr, StartBaseBlock: f.Start, Interval: f.Iv, EndBlock: f.End})
 		}
 		p.MaxNonce = c.Mn
@@ -173,7 +180,27 @@ func oracleGenCfg(c OCfg, dbdir string) GenCfg {
 	return gc
 }
 
+// the model names every feeder id (spec/Oracle.tla: FORD = f1..f3); an id that is not a feeder is the ABSENT record
+const oracleFeederIDs = 3
+
+var absentFeeder = jm{"tok": "", "start": 0, "iv": 1, "sr": 0, "end": 0}
+
+func normOracleCfg(c OCfg) OCfg {
+	fd := map[string]OFeeder{}
+	for k, v := range c.Fd {
+		fd[k] = v
+	}
+	for i := 1; i <= oracleFeederIDs; i++ {
+		if _, ok := fd[fid(uint64(i))]; !ok {
+			fd[fid(uint64(i))] = OFeeder{Tok: "", Iv: 1}
+		}
+	}
+	c.Fd = fd
+	return c
+}
+
 func newOracleNode(c OCfg) *oracleNode {
+	c = normOracleCfg(c)
 	n := &oracleNode{cfg: c, chainID: utils.DefaultChainID, keys: map[string]*ed25519.PrivKey{}, ids: map[string]string{}}
 	n.txCfg = encoding.MakeConfig(exocoreapp.ModuleBasics).TxConfig
 	for v := range c.Pw {
@@ -184,8 +211,9 @@ func newOracleNode(c OCfg) *oracleNode {
 		n.ids[sdk.AccAddress(addr).String()] = v
 		n.ids[sdk.AccAddress(addr).String()+"1"] = v // filter key: creator + sourceID
 	}
+	n.nTokens = 2
 	for _, f := range c.Fd {
-		if int(idNum(f.Tok)) > n.nTokens {
+		if f.Tok != "" && int(idNum(f.Tok)) > n.nTokens {
 			n.nTokens = int(idNum(f.Tok))
 		}
 	}
@@ -321,14 +349,27 @@ func echoMsgs(msgs []OMsg) []jm {
 // calling the message server in its EndBlocker (before the oracle's).  The driver calls the message server with the
 // gov authority on the deliver-state context at that point of the block (no transaction path, DESIGN 4.2).
 func (n *oracleNode) deliverUpd(f string, end uint64) (ok bool, code uint32, log string, panicked bool) {
+	// the message names a TOKEN (UpdateTokenFeeder then works on that token's latest feeder): the token of feeder f
+	// according to the stored params
+	tok := uint64(0)
+	kp := n.app.OracleKeeper.GetParams(n.ctx())
+	if i := int(idNum(f)); i < len(kp.TokenFeeders) {
+		tok = kp.TokenFeeders[i].TokenID
+	}
+	if tok == 0 {
+		return false, 1, "feeder absent", false
+	}
+	return n.deliverParams(&oracletypes.TokenFeeder{TokenID: tok, EndBlock: end})
+}
+
+func (n *oracleNode) deliverParams(tf *oracletypes.TokenFeeder) (ok bool, code uint32, log string, panicked bool) {
 	defer func() {
 		if r := recover(); r != nil {
 			ok, panicked, log = false, true, fmt.Sprint(r)
 		}
 	}()
 	auth := authtypes.NewModuleAddress(govtypes.ModuleName).String()
-	fd := n.cfg.Fd[f]
-	msg := &oracletypes.MsgUpdateParams{Authority: auth, Params: oracletypes.Params{TokenFeeders: []*oracletypes.TokenFeeder{{TokenID: idNum(fd.Tok), EndBlock: end}}}}
+	msg := &oracletypes.MsgUpdateParams{Authority: auth, Params: oracletypes.Params{TokenFeeders: []*oracletypes.TokenFeeder{tf}}}
 	_, err := oraclekeeper.NewMsgServerImpl(n.app.OracleKeeper).UpdateParams(n.ctx(), msg)
 	if err != nil {
 		lg := err.Error()
@@ -457,6 +498,7 @@ func (n *oracleNode) keyVal(k interface{}) (v string, src int64) {
 
 func feedersOfTree(p interface{}) jm {
 	out := jm{}
+	defer fillAbsent(out)
 	for i, f := range rlist(rget(p, "TokenFeeders")) {
 		if i == 0 || f == nil {
 			continue
@@ -577,8 +619,18 @@ func (n *oracleNode) cacheMsgItems(l interface{}) []jm {
 }
 
 // feeders of a params value as the model's fd function: {"f1": {tok, start, iv, sr, end}, ...}
+func fillAbsent(out jm) jm {
+	for i := 1; i <= oracleFeederIDs; i++ {
+		if _, ok := out[fid(uint64(i))]; !ok {
+			out[fid(uint64(i))] = absentFeeder
+		}
+	}
+	return out
+}
+
 func fdOf(fs []*oracletypes.TokenFeeder) jm {
 	out := jm{}
+	defer fillAbsent(out)
 	for i, f := range fs {
 		if i == 0 || f == nil {
 			continue
@@ -678,6 +730,9 @@ func (n *oracleNode) runEvents(events []OEvent, startIdx int, stopAfter int, hon
 		case "Upd":
 			ok, code, lg, pan := n.deliverUpd(e.A.F, e.A.End)
 			emit(i, jm{"ev": "Upd", "a": jm{"f": e.A.F, "end": e.A.End}, "ok": ok, "code": code, "err": lg, "panic": pan, "st": n.project()})
+		case "Add":
+			ok, code, lg, pan := n.deliverParams(&oracletypes.TokenFeeder{TokenID: idNum(e.A.Tok), RuleID: 1, StartBaseBlock: e.A.Start, Interval: e.A.Iv, StartRoundID: e.A.Sr})
+			emit(i, jm{"ev": "Add", "a": jm{"tok": e.A.Tok, "start": e.A.Start, "iv": e.A.Iv, "sr": e.A.Sr}, "ok": ok, "code": code, "err": lg, "panic": pan, "st": n.project()})
 		case "EndBlock":
 			halt := n.endAndCommit()
 			blocks++
